@@ -22,6 +22,7 @@ import (
 	"net"
 	"net/http"
 	"net/http/httptest"
+	"regexp"
 	"runtime/pprof"
 	"strings"
 	"sync"
@@ -54,6 +55,9 @@ type source struct {
 }
 
 type world struct {
+	// gate: handler calls of gated frames signal entered and block until the harness closes gate
+	gate     chan struct{}
+	entered  chan struct{}
 	mu       sync.Mutex
 	execs    []sexp.Node
 	sources  []*source
@@ -116,21 +120,15 @@ func newAPI(w *world) *apifu.API {
 	nArg := map[string]*graphql.InputValueDefinition{"n": {Type: graphql.IntType}}
 	cfg.AddQueryField("q", &graphql.FieldDefinition{Type: graphql.IntType, Arguments: nArg,
 		Resolve: func(ctx graphql.FieldContext) (interface{}, error) {
-			n := argN(ctx)
-			w.addExec(sexp.T("exec", sexp.Int(n)))
-			return n, nil
+			return argN(ctx), nil
 		}})
 	cfg.AddQueryField("big", &graphql.FieldDefinition{Type: graphql.StringType, Arguments: nArg,
 		Resolve: func(ctx graphql.FieldContext) (interface{}, error) {
-			n := argN(ctx)
-			w.addExec(sexp.T("exec", sexp.Int(n)))
-			return fmt.Sprintf("%d:", n) + bigString, nil
+			return fmt.Sprintf("%d:", argN(ctx)) + bigString, nil
 		}})
 	cfg.AddMutation("m", &graphql.FieldDefinition{Type: graphql.IntType, Arguments: nArg,
 		Resolve: func(ctx graphql.FieldContext) (interface{}, error) {
-			n := argN(ctx)
-			w.addExec(sexp.T("exec", sexp.Int(n)))
-			return n, nil
+			return argN(ctx), nil
 		}})
 	cfg.AddSubscription("s", &graphql.FieldDefinition{Type: graphql.IntType, Arguments: nArg,
 		Resolve: func(ctx graphql.FieldContext) (interface{}, error) {
@@ -141,6 +139,39 @@ func newAPI(w *world) *apifu.API {
 				w.sources = append(w.sources, src)
 				w.execs = append(w.execs, sexp.T("sub", sexp.Int(n)))
 				w.mu.Unlock()
+				return &apifu.SubscriptionSourceStream{
+					EventChannel: src.ch,
+					Stop: func() {
+						if atomic.AddInt32(&src.stops, 1) == 1 {
+							close(src.stopped)
+						}
+					},
+				}, nil
+			}
+			return ctx.Object, nil
+		}})
+	waitGate := func() {
+		w.entered <- struct{}{}
+		select {
+		case <-w.gate:
+		case <-time.After(20 * waitT):
+		}
+	}
+	cfg.AddQueryField("qg", &graphql.FieldDefinition{Type: graphql.IntType, Arguments: nArg,
+		Resolve: func(ctx graphql.FieldContext) (interface{}, error) {
+			waitGate()
+			return argN(ctx), nil
+		}})
+	cfg.AddSubscription("sg", &graphql.FieldDefinition{Type: graphql.IntType, Arguments: nArg,
+		Resolve: func(ctx graphql.FieldContext) (interface{}, error) {
+			if ctx.IsSubscribe {
+				n := argN(ctx)
+				w.mu.Lock()
+				src := &source{idx: len(w.sources), n: n, ch: make(chan int), stopped: make(chan struct{})}
+				w.sources = append(w.sources, src)
+				w.execs = append(w.execs, sexp.T("sub", sexp.Int(n)))
+				w.mu.Unlock()
+				waitGate()
 				return &apifu.SubscriptionSourceStream{
 					EventChannel: src.ch,
 					Stop: func() {
@@ -163,8 +194,17 @@ func newAPI(w *world) *apifu.API {
 	cfg.HandleGraphQLWSInit = func(ctx context.Context, p json.RawMessage) (context.Context, error) {
 		var v struct {
 			Reject bool `json:"reject"`
+			Gate   bool `json:"gate"`
 		}
 		_ = json.Unmarshal(p, &v)
+		if v.Gate {
+			w.mu.Lock()
+			w.initOK++
+			w.execs = append(w.execs, sexp.T("init", sexp.Bool(true)))
+			w.mu.Unlock()
+			waitGate()
+			return ctx, nil
+		}
 		w.mu.Lock()
 		defer w.mu.Unlock()
 		if v.Reject {
@@ -176,11 +216,43 @@ func newAPI(w *world) *apifu.API {
 		w.execs = append(w.execs, sexp.T("init", sexp.Bool(true)))
 		return ctx, nil
 	}
+	// Config.Execute: every execution of a query or mutation (not the per-event executions of a
+	// subscription) is recorded with the operation number written into its document, whether or not
+	// its resolvers run (they do not when the handler context is already cancelled)
+	cfg.Execute = func(r *graphql.Request, info *apifu.RequestInfo) *graphql.Response {
+		if r.InitialValue == nil {
+			if n, ok := opNumber(r); ok {
+				w.addExec(sexp.T("exec", sexp.Int(n)))
+			}
+		}
+		return graphql.Execute(r)
+	}
 	api, err := apifu.NewAPI(cfg)
 	if err != nil {
 		panic(err)
 	}
 	return api
+}
+
+var opNumberRE = regexp.MustCompile(`\(n:(\d+)\)`)
+
+// opNumber: the operation number the harness wrote into the document (or its variables).
+func opNumber(r *graphql.Request) (int, bool) {
+	if m := opNumberRE.FindStringSubmatch(r.Query); m != nil {
+		var n int
+		fmt.Sscan(m[1], &n)
+		return n, true
+	}
+	switch v := r.VariableValues["n"].(type) {
+	case float64:
+		return int(v), true
+	case int:
+		return v, true
+	case json.Number:
+		n, err := v.Int64()
+		return int(n), err == nil
+	}
+	return 0, false
 }
 
 func registrySize(api *apifu.API) int {
@@ -210,9 +282,21 @@ type Script struct {
 	// frames): their resolver calls are attributed to their labels by the echoed operation number.
 	Burst  []Label
 	Closer *Label
+	// Pipe: after the labels, these frames are written back to back without reading anything; the first
+	// of them makes the server begin closing (an init the application rejects, terminate, a protocol
+	// error), the others are on their way while it closes.  The harness appends an init as a sentinel:
+	// the init callback is called whatever the state of the connection, so when it has been called
+	// the handler calls of all frames before it have returned.
+	Pipe []Label
+	// Gate: after the labels, this frame's handler call (init callback / resolver / subscribe resolver)
+	// blocks on the harness's gate; while it is blocked the application closes the connection
+	// (CloseHijackedConnections), the write loop's wait for the peer's close passes (1 s), then the gate
+	// is opened.
+	Gate *Label
 }
 
 type Result struct {
+	Lenient int // labels performed while the connection was served normally (-1: all)
 	Labels []Label
 	Obs    []sexp.Node // one per label
 	Log    []sexp.Node
@@ -352,7 +436,7 @@ func (cv *conv) mayClose(l Label) bool {
 }
 
 func runConversation(tag string, sc Script) (res Result) {
-	w := &world{}
+	w := &world{gate: make(chan struct{}), entered: make(chan struct{}, 16)}
 	api := newAPI(w)
 	var ts *httptest.Server
 	pprof.Do(context.Background(), pprof.Labels("c08", tag), func(context.Context) {
@@ -626,6 +710,109 @@ func runConversation(tag string, sc Script) (res Result) {
 			obs = append(obs, sexp.T("obs", sexp.T("execs", es...), sexp.T("stops", w.stopCounts()...)))
 		}
 	}
+	res.Lenient = -1
+	if len(sc.Pipe) > 0 && !cv.term {
+		flush()
+		w.takeExecs()
+		first := len(performed)
+		res.Lenient = first + 1 // what the frame that begins the closing itself queues is drained before the close frame
+		all := append(append([]Label(nil), sc.Pipe...), Label{Kind: lMsg, Type: "init", Pay: "none"})
+		w.mu.Lock()
+		inits := w.initOK + w.initRej
+		w.mu.Unlock()
+		for _, l := range all {
+			n := len(performed)
+			performed = append(performed, l)
+			cv.log = append(cv.log, sexp.T("sent", sexp.Int(n)))
+			if l.Kind == lMsg && l.Type == "init" {
+				inits++
+			}
+			data, binary := l.wire(n)
+			mt := websocket.TextMessage
+			if binary {
+				mt = websocket.BinaryMessage
+			}
+			c.SetWriteDeadline(time.Now().Add(waitT))
+			if err := c.WriteMessage(mt, data); err != nil {
+				break
+			}
+		}
+		// the sentinel's init callback has run: every handler call of the pipe has returned
+		deadline := time.Now().Add(waitT)
+		for {
+			w.mu.Lock()
+			got := w.initOK + w.initRej
+			w.mu.Unlock()
+			if got >= inits {
+				break
+			}
+			if time.Now().After(deadline) {
+				cv.stall = append(cv.stall, "pipe-sentinel")
+				break
+			}
+			time.Sleep(200 * time.Microsecond)
+		}
+		final := sexp.T("stops", w.stopCounts()...)
+		// facts: resolver calls by the operation number they echo, init callbacks in the order of the init labels
+		byN := map[int][]sexp.Node{}
+		var initFacts []sexp.Node
+		for _, e := range w.takeExecs() {
+			if len(e.List) == 2 && e.List[1].Kind == 'z' {
+				n := int(e.List[1].Int.Int64())
+				byN[n] = append(byN[n], e)
+			} else {
+				initFacts = append(initFacts, e)
+			}
+		}
+		for n := first; n < len(performed); n++ {
+			es := byN[n]
+			if l := performed[n]; l.Kind == lMsg && l.Type == "init" && len(initFacts) > 0 {
+				es = append([]sexp.Node{initFacts[0]}, es...)
+				initFacts = initFacts[1:]
+			}
+			st := sexp.T("nostops")
+			if n == len(performed)-1 {
+				st = final
+			}
+			obs = append(obs, sexp.T("obs", sexp.T("execs", es...), st))
+		}
+		cv.waitTerm("close-after-pipe")
+	}
+	gateClosed := false
+	var gateDone chan struct{}
+	if sc.Gate != nil && !cv.term {
+		flush()
+		w.takeExecs()
+		n := len(performed)
+		res.Lenient = n
+		l := *sc.Gate
+		l.Gated = true
+		performed = append(performed, l)
+		cv.log = append(cv.log, sexp.T("sent", sexp.Int(n)))
+		data, _ := l.wire(n)
+		c.SetWriteDeadline(time.Now().Add(waitT))
+		if err := c.WriteMessage(websocket.TextMessage, data); err == nil {
+			t := time.NewTimer(waitT)
+			select {
+			case <-w.entered:
+			case <-t.C:
+				cv.stall = append(cv.stall, "gate-not-entered")
+			}
+			t.Stop()
+		}
+		obs = append(obs, snapshot())
+		// the application closes the connection while the handler call is blocked
+		gateDone = make(chan struct{})
+		go func() { api.CloseHijackedConnections(); close(gateDone) }()
+		if cv.waitTerm("close-from-application-during-handler") {
+			cv.log = append(cv.log, sexp.T("f", SFrame{Kind: "closed", Code: cv.termCode}.sexp()))
+		}
+		// the read loop is not reading, so the client's answer to the close frame would not be seen:
+		// the write loop gives up waiting after 1 s, closes the socket and exits
+		time.Sleep(1300 * time.Millisecond)
+		close(w.gate)
+		gateClosed = true
+	}
 	if sc.Flood > 0 && !cv.term {
 		// a client that never reads: big responses fill the socket buffers and the outgoing queue
 		for i := 0; i < sc.Flood; i++ {
@@ -646,7 +833,9 @@ func runConversation(tag string, sc Script) (res Result) {
 	}
 
 	end := sc.End
-	if cv.term {
+	if gateClosed {
+		end = "app-close-during-handler"
+	} else if cv.term {
 		end = "peer"
 		cv.log = append(cv.log, sexp.T("f", SFrame{Kind: "closed", Code: cv.termCode}.sexp()))
 	} else {
@@ -675,6 +864,16 @@ func runConversation(tag string, sc Script) (res Result) {
 	}
 	cv.log = append(cv.log, sexp.T("sent", sexp.Int(len(performed))))
 	switch end {
+	case "app-close-during-handler":
+		replyClose()
+		t := time.NewTimer(2 * waitT)
+		select {
+		case <-gateDone:
+		case <-t.C:
+			cv.stall = append(cv.stall, "CloseHijackedConnections-blocked")
+		}
+		t.Stop()
+		end = "app-close"
 	case "peer":
 		replyClose()
 	case "client-close":
